@@ -1,0 +1,18 @@
+//go:build !verif
+
+// Package verifhook provides observation/fault-injection points for the
+// verification harness. Without the "verif" build tag every function is an
+// empty inlinable stub.
+package verifhook
+
+// Enabled reports whether the hooks are compiled in.
+const Enabled = false
+
+// Point marks a persistent-state mutation or another interesting step.
+func Point(string, string) error { return nil }
+
+// BeforeWrite is consulted before a content file write of size bytes.
+func BeforeWrite(string, int) (int, error) { return 0, nil }
+
+// Free lets the harness override the free space reported for a root.
+func Free(_ string, actual uint64) uint64 { return actual }
